@@ -808,10 +808,14 @@ def rule_stream_decoder_follows_format(repo: Repo, rep, rule: str = "R5.16") -> 
         dom = cfg.dominators()
         L = Locals(fn.node)
         reads = [x for x in ast.walk(fn.node) if isinstance(x, ast.Attribute) and x.attr == "stream_format"]
-        nd = [n for n in cfg.nodes if n.kind == "stmt" and n.ast is not None and not n.copy and any(
-            isinstance(c.func, ast.Attribute) and c.func.attr == "write_line" and c.args and "iter_ndjson(" in norm(c.args[0]) for c in calls_in(n.ast))]
-        sse = [n for n in cfg.nodes if n.kind == "stmt" and n.ast is not None and not n.copy and any(
-            isinstance(c.func, ast.Attribute) and c.func.attr == "write_line" and c.args and "iter_sse" in norm(c.args[0]) for c in calls_in(n.ast))]
+        def _emits(n, what: str) -> bool:
+            """the statement writes (directly, or through a line-writing helper that is handed the text) code that calls the decoder `what`"""
+            if n.kind != "stmt" or n.ast is None or n.copy or not isinstance(n.ast, ast.Expr):
+                return False
+            return any(isinstance(k, ast.Constant) and isinstance(k.value, str) and what in k.value for c in calls_in(n.ast) for a in list(c.args) + [kw.value for kw in c.keywords] for k in ast.walk(a))
+
+        nd = [n for n in cfg.nodes if _emits(n, "iter_ndjson(")]
+        sse = [n for n in cfg.nodes if _emits(n, "iter_sse")]
         if not sse:
             raise AnalysisError(f"{rule}: the emit of the SSE decoder was not found in _write_strategy_based_return (anchor)")
         sub = f"{hmod.relpath}:_write_strategy_based_return decoder of a streamed JSON body"
